@@ -1,6 +1,6 @@
 use crate::{
     common::BinaryOp,
-    syn_utils::{expand_self, expand_self_in_impl_generics, ref_target},
+    syn_utils::{expand_self, expand_self_in_impl_generics, ref_target, with_lint_attrs},
 };
 use proc_macro2::{Span, TokenStream};
 use quote::quote;
@@ -228,6 +228,7 @@ pub fn build_by_item_impl(attr: TokenStream, item_impl: &ItemImpl) -> Result<Tok
         }
     }
 
+    let ts = with_lint_attrs(ts, &item_impl.attrs);
     if args.dump {
         bail!(_, "{}", format!("dump:\n{ts}"));
     }
